@@ -506,6 +506,22 @@ func (sqlite *SQLiteDB) UpdateMintQuoteState(quoteId string, state nut04.State) 
 	return nil
 }
 
+func (sqlite *SQLiteDB) CompareAndSetMintQuoteState(quoteId string, current, newState nut04.State) (bool, error) {
+	result, err := sqlite.db.Exec(
+		"UPDATE mint_quotes SET state = ? WHERE id = ? AND state = ?",
+		newState.String(), quoteId, current.String(),
+	)
+	if err != nil {
+		return false, err
+	}
+
+	count, err := result.RowsAffected()
+	if err != nil {
+		return false, err
+	}
+	return count == 1, nil
+}
+
 func (sqlite *SQLiteDB) SaveMeltQuote(meltQuote storage.MeltQuote) error {
 	_, err := sqlite.db.Exec(`
 		INSERT INTO melt_quotes 
